@@ -13,7 +13,7 @@ From BB Require Import BN Brute SpaceFacts TrapFacts PercolateFacts AttractorFac
   Strict PetriNet Control Meta FilterFacts PetriNetFacts TrappistFacts DiagramStruct DiagramSem1 DiagramCache
   DiagramDepth DiagramComplete Termination ControlFacts MetaFacts Candidates StrictFacts MinExpandFacts CandidatesFacts SymbolicTest SymbolicTestFacts Signed ReductionFacts ControlFacts2 Main Blocks BlocksFacts ObsFacts OwnerFacts CandidatesTerm
   PartialOwner BlockMath BlockComplete ASeeds ASeedsFacts LogChecks SkipRule SkipRuleFacts Names NamesFacts Perm PermFacts SCC SCCFacts SCCStruct ControlFacts3 SCCTerm FilterSym Main2 StrategyFacts ControlFacts4 SkipRuleFacts2 SCCComplete SCCAttr BlockComplete2 ControlFacts5 Iso SkipSem ControlFacts6.
-From BB Require Import PyLib PyLibSd PySrcSdBase PySrcSd PySrcSdFacts PyLibSd PySrcSdBase PySrcSdTarget PySrcSdTargetFacts PyLib PyLibSd PyLibCore PyLibSd2 PySrcSdBase PySrcSdMin PySrcSdMinFacts.
+From BB Require Import PyLib PyLibSd PySrcSdBase PySrcSd PySrcSdFacts PyLibSd PySrcSdBase PySrcSdTarget PySrcSdTargetFacts PyLib PyLibSd PyLibCore PyLibSd2 PySrcSdBase PySrcSdMin PySrcSdMinFacts Candidates Blocks ASeeds PySrcSdASeeds PySrcSdASeedsFacts.
 
 (* translator tie: the limit handling of the strategy drivers as written in the source (expand_to_target, expand_bfs, expand_dfs, expand_minimal_spaces) is the model's *)
 Theorem C15_source_expand_to_target : forall (fuel : nat) (N : net) (cfg : config) (d : sd) (target : space) (size_limit : option nat), py_expand_to_target fuel N cfg d target size_limit = expand_to_target fuel N cfg d target size_limit.
@@ -27,6 +27,9 @@ Proof. exact py_expand_dfs_spec_all. Qed.
 
 Theorem C15_source_expand_minimal_spaces : forall (fuel : nat) (N : net) (cfg : config) (d : sd) (start size_limit : option nat) (skip : bool) (tape : list space), SWF N d -> TrapNodes N d -> EdgeStrict d -> start_of start < size d -> perm_of tape (min_traps_b N (n_space (get d (start_of start)))) = true -> py_expand_minimal_spaces fuel N cfg d tape start size_limit skip = expand_min fuel N cfg d start size_limit skip tape.
 Proof. exact py_expand_minimal_spaces_spec. Qed.
+
+Theorem C15_source_expand_attractor_seeds : forall (fuel : nat) (N : net) (cfg : config) (d : sd) (size_limit : option nat) (min_tape : list space) (tape : list (list nat)), SWF N d -> TrapNodes N d -> EdgeStrict d -> perm_of min_tape (min_traps_b N (n_space (get d 0))) = true -> py_expand_attractor_seeds fuel N cfg d min_tape tape size_limit = expand_aseeds fuel N cfg d size_limit min_tape tape.
+Proof. exact py_expand_attractor_seeds_spec. Qed.
 
 Theorem C15_step_SWF : forall (fuel : nat) (N : net) (cfg : config) (d : sd) (o : op), SWF N d -> SWF N (fst (step fuel N cfg d o)).
 Proof. exact step_SWF. Qed.
@@ -72,6 +75,7 @@ Print Assumptions C15_source_expand_to_target.
 Print Assumptions C15_source_expand_bfs.
 Print Assumptions C15_source_expand_dfs.
 Print Assumptions C15_source_expand_minimal_spaces.
+Print Assumptions C15_source_expand_attractor_seeds.
 Print Assumptions C15_step_SWF.
 Print Assumptions C15_step_Faithful_all.
 Print Assumptions C15_step_NoStubEdges.
